@@ -26,6 +26,23 @@ pub mod collections {
         slots: [Option<(K, V)>; CAP],
     }
 
+    /// what a lookup argument must be able to do: std's `Borrow`-based lookups
+    /// (`map.get("cid")`, `map.remove(&key)`) are expressed through this trait so that header
+    /// keys can be a small `Copy` type while the router sources keep passing `&str`.
+    pub trait AsKey<K> {
+        fn matches(&self, k: &K) -> bool;
+    }
+    impl<K: PartialEq> AsKey<K> for K {
+        fn matches(&self, k: &K) -> bool {
+            self == k
+        }
+    }
+    impl AsKey<super::HeaderKey> for str {
+        fn matches(&self, k: &super::HeaderKey) -> bool {
+            super::HeaderKey::from(self) == *k
+        }
+    }
+
     impl<K: Clone, V: Clone> Clone for HashMap<K, V> {
         fn clone(&self) -> Self {
             Self { slots: [self.slots[0].clone(), self.slots[1].clone(), self.slots[2].clone(), self.slots[3].clone()] }
@@ -40,7 +57,7 @@ pub mod collections {
             let mut i = 0;
             while i < CAP {
                 if let Some((k, v)) = &self.slots[i] {
-                    if other.get(k) != Some(v) {
+                    if other.get::<K>(k) != Some(v) {
                         return false;
                     }
                 }
@@ -71,15 +88,11 @@ pub mod collections {
         pub fn is_empty(&self) -> bool {
             self.len() == 0
         }
-        fn find<Q: ?Sized>(&self, k: &Q) -> Option<usize>
-        where
-            K: core::borrow::Borrow<Q>,
-            Q: PartialEq,
-        {
+        fn find<Q: ?Sized + AsKey<K>>(&self, k: &Q) -> Option<usize> {
             let mut i = 0;
             while i < CAP {
                 if let Some((kk, _)) = &self.slots[i] {
-                    if kk.borrow() == k {
+                    if k.matches(kk) {
                         return Some(i);
                     }
                 }
@@ -88,7 +101,7 @@ pub mod collections {
             None
         }
         pub fn insert(&mut self, k: K, v: V) -> Option<V> {
-            if let Some(i) = self.find(&k) {
+            if let Some(i) = self.find::<K>(&k) {
                 let old = self.slots[i].take();
                 self.slots[i] = Some((k, v));
                 return old.map(|(_, v)| v);
@@ -103,38 +116,22 @@ pub mod collections {
             }
             panic!("map model capacity (harness bound)");
         }
-        pub fn get<Q: ?Sized>(&self, k: &Q) -> Option<&V>
-        where
-            K: core::borrow::Borrow<Q>,
-            Q: PartialEq,
-        {
+        pub fn get<Q: ?Sized + AsKey<K>>(&self, k: &Q) -> Option<&V> {
             match self.find(k) {
                 Some(i) => self.slots[i].as_ref().map(|(_, v)| v),
                 None => None,
             }
         }
-        pub fn get_mut<Q: ?Sized>(&mut self, k: &Q) -> Option<&mut V>
-        where
-            K: core::borrow::Borrow<Q>,
-            Q: PartialEq,
-        {
+        pub fn get_mut<Q: ?Sized + AsKey<K>>(&mut self, k: &Q) -> Option<&mut V> {
             match self.find(k) {
                 Some(i) => self.slots[i].as_mut().map(|(_, v)| v),
                 None => None,
             }
         }
-        pub fn contains_key<Q: ?Sized>(&self, k: &Q) -> bool
-        where
-            K: core::borrow::Borrow<Q>,
-            Q: PartialEq,
-        {
+        pub fn contains_key<Q: ?Sized + AsKey<K>>(&self, k: &Q) -> bool {
             self.find(k).is_some()
         }
-        pub fn remove<Q: ?Sized>(&mut self, k: &Q) -> Option<V>
-        where
-            K: core::borrow::Borrow<Q>,
-            Q: PartialEq,
-        {
+        pub fn remove<Q: ?Sized + AsKey<K>>(&mut self, k: &Q) -> Option<V> {
             match self.find(k) {
                 Some(i) => self.slots[i].take().map(|(_, v)| v),
                 None => None,
@@ -199,9 +196,29 @@ pub mod collections {
 use bytes::Bytes;
 use collections::HashMap;
 
+/// Header names as a one-byte key. The routers only ever name the header `"cid"` (as a
+/// `&str` literal converted with `.into()` or passed to a lookup); heap-allocated `String`
+/// keys made CBMC's symbolic execution of every map operation crawl (pointer value sets).
+/// Known names map to distinct codes; any other name maps to `Other`.
+#[derive(Clone, Copy, Debug, PartialEq, Eq, Hash)]
+pub enum HeaderKey {
+    Cid,
+    ReqId,
+    Other,
+}
+impl From<&str> for HeaderKey {
+    fn from(s: &str) -> Self {
+        match s {
+            "cid" => HeaderKey::Cid,
+            "req_id" => HeaderKey::ReqId,
+            _ => HeaderKey::Other,
+        }
+    }
+}
+
 #[derive(Debug, Clone, PartialEq)]
 pub struct MessagePayload {
-    pub headers: Option<HashMap<String, String>>,
+    pub headers: Option<HashMap<HeaderKey, String>>,
     pub message: Bytes,
 }
 
